@@ -15,6 +15,7 @@ import (
 	"io/ioutil"
 	"os"
 	"strconv"
+	"runtime"
 	"strings"
 	"sync"
 	"time"
@@ -28,6 +29,13 @@ import (
 )
 
 func main() { Main("C09", run) }
+
+// Watchdog budgets: free when the call returns; expiry of the first is never a verdict (the case is
+// run again alone with the second).
+const (
+	firstBudget   = 3 * time.Minute
+	confirmBudget = 10 * time.Minute
+)
 
 // ---------- case representation ----------
 
@@ -157,10 +165,10 @@ type countingWriter struct {
 }
 
 func (c *countingWriter) WriteMpegtsFrame(f *mpegts.Frame) error {
-	err := c.w.WriteMpegtsFrame(f)
 	c.mu.Lock()
+	defer c.mu.Unlock()
+	err := c.w.WriteMpegtsFrame(f)
 	c.n++
-	c.mu.Unlock()
 	return err
 }
 func (c *countingWriter) count() int { c.mu.Lock(); defer c.mu.Unlock(); return c.n }
@@ -177,7 +185,7 @@ func toCodec(f avFrame) *codec.Frame {
 }
 
 // runAv: codec frames through the real packetizers (synchronously, or through the Muxer goroutine)
-func runAv(k *tcase) (out []byte, panicked bool, note string) {
+func runAv(k *tcase, muxBudget time.Duration) (out []byte, panicked bool, note string) {
 	var buf bytes.Buffer
 	w, err := mpegts.NewWriter(&buf)
 	if err != nil {
@@ -231,15 +239,22 @@ func runAv(k *tcase) (out []byte, panicked bool, note string) {
 	for _, f := range k.av {
 		mx.WriteFrame(toCodec(f))
 	}
-	deadline := time.Now().Add(20 * time.Second)
-	for cw.count() < expect && time.Now().Before(deadline) {
-		time.Sleep(200 * time.Microsecond)
+	// wait for the event (the expected number of frames reached the writer); the budget only bounds a
+	// goroutine that is gone or stuck and its expiry is confirmed by a run of the case alone
+	deadline := time.Now().Add(muxBudget)
+	for n := 0; cw.count() < expect && time.Now().Before(deadline); n++ {
+		if n < 200 {
+			runtime.Gosched()
+		} else {
+			time.Sleep(200 * time.Microsecond)
+		}
 	}
 	if cw.count() < expect {
 		note = fmt.Sprintf("stalled:%d/%d", cw.count(), expect)
 	}
 	if panicked {
-		// let the goroutine reach (and recover from) the panic; nothing more may be written
+		// give the goroutine a chance to reach (and recover from) the panic; nothing more may be
+		// written (a frame written after it would be counted below; too short a pause only misses that)
 		time.Sleep(3 * time.Millisecond)
 	}
 	mx.Close()
@@ -560,6 +575,7 @@ func run(c *Ctx) {
 		"(c) one call of NewADTSHeader / prepareAvcHeader; distinct by the full input; non-trivial when at least one frame with a non-empty payload is written"
 
 	// run the implementation, build driver lines
+	var hangs []int
 	type obs struct {
 		impl     []byte
 		panicked bool
@@ -569,6 +585,76 @@ func run(c *Ctx) {
 	tImpl := time.Now()
 	lines := make([]string, len(cases))
 	ob := make([]obs, len(cases))
+	runCase := func(i int, k *tcase, muxBudget time.Duration) (o obs, line string) {
+		switch k.op {
+		case "raw":
+			out, p := runRaw(k)
+			o = obs{impl: out, panicked: p, oracleOK: true}
+			for _, f := range k.raw {
+				if f.dts < 0 || f.pts < 0 || f.dts >= 1<<33 || f.pts >= 1<<33 {
+					o.oracleOK = false
+				}
+			}
+			line = k.line() + " impl=" + Hx(out)
+		case "av":
+			out, p, note := runAv(k, muxBudget)
+			asc := ascFields(k.ascraw)
+			o = obs{impl: out, panicked: p, note: note, oracleOK: true}
+			for _, f := range k.av {
+				if f.kind == 'a' && len(f.payload) > 8184 && asc != "none" {
+					o.oracleOK = false // frame_length has 13 bits: no AAC frame is that large
+				}
+				if f.dts < 0 || f.pts < 0 {
+					o.oracleOK = false
+				}
+			}
+			line = k.line() + " asc=" + asc + " impl=" + Hx(out)
+		case "adts":
+			a := k.args
+			p, _ := strconv.Atoi(a[0])
+			s, _ := strconv.Atoi(a[1])
+			ch, _ := strconv.Atoi(a[2])
+			n, _ := strconv.Atoi(a[3])
+			h := aac.NewADTSHeader(byte(p), byte(s), byte(ch), n)
+			o = obs{impl: h[:]}
+			line = k.line()
+		case "avchdr":
+			a := k.args
+			func() {
+				defer func() {
+					if r := recover(); r != nil {
+						o.panicked = true
+					}
+				}()
+				o.impl = mpegts.VerifAvcHeader(Unhx(a[0]), Unhx(a[1]), Unhx(a[2]))
+			}()
+			line = k.line()
+		}
+		return
+	}
+	type done struct {
+		o    obs
+		line string
+	}
+	// guarded: one case under a watchdog (hung = the call into the implementation did not return
+	// within the budget; its goroutine is abandoned)
+	guarded := func(i int, k *tcase, budget, muxBudget time.Duration) (hung bool) {
+		ch := make(chan done, 1)
+		go func() {
+			o, l := runCase(i, k, muxBudget)
+			ch <- done{o, l}
+		}()
+		t := time.NewTimer(budget)
+		defer t.Stop()
+		select {
+		case d := <-ch:
+			ob[i], lines[i] = d.o, d.line
+			return false
+		case <-t.C:
+			return true
+		}
+	}
+	suspect := make([]bool, len(cases))
 	var wgI sync.WaitGroup
 	sem := make(chan struct{}, 8)
 	for i, k := range cases {
@@ -577,56 +663,23 @@ func run(c *Ctx) {
 		sem <- struct{}{}
 		go func() {
 			defer func() { <-sem; wgI.Done() }()
-			switch k.op {
-			case "raw":
-				out, p := runRaw(k)
-				ob[i] = obs{impl: out, panicked: p, oracleOK: true}
-				for _, f := range k.raw {
-					if f.dts < 0 || f.pts < 0 || f.dts >= 1<<33 || f.pts >= 1<<33 {
-						ob[i].oracleOK = false
-					}
-				}
-				lines[i] = k.line() + " impl=" + Hx(out)
-			case "av":
-				out, p, note := runAv(k)
-				asc := ascFields(k.ascraw)
-				ob[i] = obs{impl: out, panicked: p, note: note, oracleOK: asc != "none"}
-				for _, f := range k.av {
-					if f.kind == 'a' && len(f.payload) > 8184 {
-						ob[i].oracleOK = false // frame_length has 13 bits: no AAC frame is that large
-					}
-					if f.kind == 'v' && len(f.payload) == 0 {
-						ob[i].oracleOK = false // not a NAL unit
-					}
-					if f.dts < 0 || f.pts < 0 {
-						ob[i].oracleOK = false
-					}
-				}
-				lines[i] = k.line() + " asc=" + asc + " impl=" + Hx(out)
-			case "adts":
-				a := k.args
-				p, _ := strconv.Atoi(a[0])
-				s, _ := strconv.Atoi(a[1])
-				ch, _ := strconv.Atoi(a[2])
-				n, _ := strconv.Atoi(a[3])
-				h := aac.NewADTSHeader(byte(p), byte(s), byte(ch), n)
-				ob[i] = obs{impl: h[:]}
-				lines[i] = k.line()
-			case "avchdr":
-				a := k.args
-				func() {
-					defer func() {
-						if r := recover(); r != nil {
-							ob[i].panicked = true
-						}
-					}()
-					ob[i].impl = mpegts.VerifAvcHeader(Unhx(a[0]), Unhx(a[1]), Unhx(a[2]))
-				}()
-				lines[i] = k.line()
-			}
+			suspect[i] = guarded(i, k, firstBudget, firstBudget/2) || strings.HasPrefix(ob[i].note, "stalled")
 		}()
 	}
 	wgI.Wait()
+	// a case whose watchdog expired (or whose Muxer goroutine did not deliver in time) is run again,
+	// alone, with a long budget: only what still does not return / deliver then is reported
+	for i, k := range cases {
+		if !suspect[i] {
+			continue
+		}
+		c.Count("watchdog-expired-rerun-alone")
+		if guarded(i, k, confirmBudget, confirmBudget/2) {
+			hangs = append(hangs, i)
+			ob[i] = obs{}
+			lines[i] = "c09 skip"
+		}
+	}
 	total := 0
 	for _, l := range lines {
 		total += len(l)
@@ -640,7 +693,18 @@ func run(c *Ctx) {
 	outs := driveParallel(c, lines)
 	c.Note(fmt.Sprintf("driver time %.1fs for %d lines", time.Since(t0).Seconds(), len(lines)))
 
+	isHang := map[int]bool{}
+	for _, i := range hangs {
+		isHang[i] = true
+		c.Eval(cases[i].line(), true)
+		c.Find(Finding{Kind: "oracle", Class: "writer-call-never-returns", Case: cases[i].line(),
+			Impl: fmt.Sprintf("the call into the implementation did not return within %v, run alone", confirmBudget),
+			Spec: "every frame is written"})
+	}
 	for i, k := range cases {
+		if isHang[i] {
+			continue
+		}
 		m := KV(outs[i])
 		in := k.line()
 		o := ob[i]
